@@ -373,25 +373,28 @@ func (p *Persister) flushNow(ctx context.Context, batch map[string]persistData, 
 	if err != nil {
 		// TODO make sure error is propagated back to the runtime and Conduit shuts down
 		p.logger.Err(ctx, err).Msg("error creating new transaction")
-		return
-	}
-
-	defer tx.Discard()
-	for id, data := range batch {
-		storeErr := data.storeFunc(ctx)
-		if storeErr != nil {
-			p.logger.Err(ctx, storeErr).
-				Str(log.ConnectorIDField, id).
-				Msg("error while saving connector")
-			if err == nil {
-				// A failed write must reach the callbacks: they release the
-				// connector acks that this flush was supposed to make durable.
-				err = storeErr
+		// Nothing can be written, but the callbacks below still have to learn
+		// about it and callbacksDone has to be closed, otherwise
+		// WaitPendingWrites (and with it Persister.Wait and every connector
+		// teardown) blocks forever.
+	} else {
+		defer tx.Discard()
+		for id, data := range batch {
+			storeErr := data.storeFunc(ctx)
+			if storeErr != nil {
+				p.logger.Err(ctx, storeErr).
+					Str(log.ConnectorIDField, id).
+					Msg("error while saving connector")
+				if err == nil {
+					// A failed write must reach the callbacks: they release the
+					// connector acks that this flush was supposed to make durable.
+					err = storeErr
+				}
 			}
 		}
-	}
-	if err == nil {
-		err = tx.Commit()
+		if err == nil {
+			err = tx.Commit()
+		}
 	}
 	// Track every callback this flush spawns so WaitPendingWrites can observe
 	// not just "the write landed" but "every side effect the write's callback
